@@ -804,6 +804,7 @@ static int _parse_inline(qaconf_t *qaconf, FILE *fp, uint8_t flags,
 
         // Find matching option
         bool optfound = false;
+        newsectionid = 0;  // a section nobody registered has no id
         int i;
         for (i = 0; optfound == false && i < qaconf->numoptions; i++) {
             qaconf_option_t *option = &qaconf->options[i];
